@@ -88,7 +88,8 @@ def run(ctx: Ctx) -> None:
         kinds = [k.name for k in KINDS if k.tla == ("total" if kind_tla == "dataclass" else kind_tla) and k.name != "dataclass"]
         if thorough:
             kinds = ["*"] + kinds          # every variant spelling on every program
-        total = run_slices(ctx, slices, mo, twins=False, kind_tla=kind_tla, kinds=kinds, every=every, invs=["KindsUniform"] if kind_tla == "dataclass" else None)
+        # G: output-only fields exist for dataclass / attrs / pydantic only (Kinds.tla Supports)
+        total = run_slices(ctx, slices + (["G"] if kind_tla == "dataclass" else []), mo, twins=False, kind_tla=kind_tla, kinds=kinds, every=every, invs=["KindsUniform"] if kind_tla == "dataclass" else None)
         for k, v in total["by_kind"].items():
             by_kind[k] = by_kind.get(k, 0) + v
         for k, v in total["unsupported"].items():
